@@ -17,7 +17,14 @@ Main results: `step_refines` (every operation preserves the representation invar
 the iteration order exactly what the list specification says, including whether the call raises)
 and `history_refines` (hence every history from the empty object).  The only side condition is
 `Op.WF`: the key/value literal of a `relabel` has pairwise distinct keys (it is a Python dict);
-`relabel_dupkey_counterexample` shows that it cannot be dropped for the model as written. -/
+`relabel_dupkey_counterexample` shows that it cannot be dropped for the model as written.
+
+Round 6 (sections at the end): whole-mapping relabel theorems (`relabel_whole_mapping`, `relabel_merge_rejected`,
+`relabel_raises_iff_merge`, `relabel_raises_iff`), `relabelAsIntegers_restore`, the extended alphabet
+(`_extend`, copy, pickle, slicing: `step2_refines`, `history2_refines`), readers (`readers_are_list`,
+`eq_is_list_eq`, `slice_refines`), rules regenerated from the source (`autoLabel_rule_from_source`,
+`errClass_matches_list`), and numeric aliases: Python objects as keys (`key_equality_is_canon`,
+`primitives_factor_through_canon`, `object_relabel_remove_factor`, `object_history_all_mutators`). -/
 
 namespace C13
 
